@@ -128,6 +128,34 @@ def p_convert_roundtrip(e, arg):
     e.explore(prog, 'convert_roundtrip')
 
 
+def p_history_kept(e, which):
+    """convert_to_TOUGH2 on an AUTOUGH2 model that has history requests of its own and a short-output section that lacks
+    some kinds of item: the history requests of the kinds the short output does not mention are unchanged, the kinds it
+    mentions are replaced by the short-output items (what convert_short_to_history states)."""
+    tag = '[short output holds %s]' % (', '.join(which) or 'only a frequency')
+    def prog(e):
+        d = build_model(e, 'AUTOUGH2', {'timesteps': 9})
+        f = d.fields
+        bl = f['grid'].fields['blocklist']; cl = f['grid'].fields['connectionlist']
+        f['history_block'] = [bl[0], bl[2]]; f['history_connection'] = [cl[1]]; f['history_generator'] = [bl[1]]
+        short = {'frequency': 5}
+        items = {'block': [bl[1]], 'connection': list(cl[:1]), 'generator': list(f['generatorlist'][:1])}
+        for k in which:
+            short[k] = items[k]
+        f['short_output'] = short
+        before = {'block': list(f['history_block']), 'connection': list(f['history_connection']), 'generator': list(f['history_generator'])}
+        e.call(e.getattr(d, 'update_sections'), [])
+        try:
+            e.call(e.getattr(d, 'convert_to_TOUGH2'), [], {'warn': False})
+        except PyExc as ex:
+            e.fail('post:conversion_completes' + tag, 'raises %s: %s' % (ex.cls, ex.msg)); return
+        after = {'block': f['history_block'], 'connection': f['history_connection'], 'generator': f['history_generator']}
+        same = lambda a, b: len(a) == len(b) and all(x is y for x, y in zip(a, b))
+        e.prove(all(same(after[k], items[k] if k in which else before[k]) for k in ('block', 'connection', 'generator')) and f['short_output'] == {},
+                'post:history_requests_unchanged_where_the_short_output_has_no_such_items' + tag)
+    e.explore(prog, 'history_kept')
+
+
 def p_rocks_json(e, arg):
     """rocks_json on the grid of a real rectangular geometry with two rock types: every non-boundary block is in exactly one
     rock type's cell list - that of its own rock type - under its cell index, boundary blocks (volume <= 0 or >= atmos_volume) in none."""
@@ -228,10 +256,21 @@ def p_generators_json(e, arg):
     e.explore(prog, 'generators_json')
 
 
-PROGRAMS = [('p_generators_json', (a, q)) for a, q in ((0, 'we'), (1, 'w'), (2, 'wce'))] + [('p_rocks_json', (a, c)) for a in (0, 1, 2) for c in ('xyz', 'rz')] + [('p_convert_roundtrip', ('AUTOUGH2', False)), ('p_convert_roundtrip', ('AUTOUGH2', True)), ('p_convert_roundtrip', ('TOUGH2', False))]
+PROGRAMS = [('p_history_kept', w) for w in ((), ('generator',), ('block',), ('block', 'connection', 'generator'))] + [('p_generators_json', (a, q)) for a, q in ((0, 'we'), (1, 'w'), (2, 'wce'))] + [('p_rocks_json', (a, c)) for a in (0, 1, 2) for c in ('xyz', 'rz')] + [('p_convert_roundtrip', ('AUTOUGH2', False)), ('p_convert_roundtrip', ('AUTOUGH2', True)), ('p_convert_roundtrip', ('TOUGH2', False))]
 
 
 def replay(obname, model, result):
+    if result['program'] == 'p_history_kept':
+        which = result['arg']
+        return ("from mulgrids import *\nfrom t2data import *\nfrom t2grids import *\n"
+                "g = mulgrid().rectangular([10., 25.], [15.], [4., 6.], atmos_type=2)\nd = t2data(); d.grid = t2grid().fromgeo(g); d.simulator = 'AUTOUGH2.2EW'\n"
+                "bl, cl = d.grid.blocklist, d.grid.connectionlist\nd.add_generator(t2generator(name='gen 1', block=bl[0].name, type='MASS', gx=1.))\n"
+                "d.history_block = [bl[0], bl[2]]; d.history_connection = [cl[1]]; d.history_generator = [bl[1]]\n"
+                "items = {'block': [bl[1]], 'connection': cl[:1], 'generator': d.generatorlist[:1]}\nd.short_output = {'frequency': 5}\n"
+                "for k in %r: d.short_output[k] = items[k]\n"
+                "before = {'block': list(d.history_block), 'connection': list(d.history_connection), 'generator': list(d.history_generator)}\n"
+                "d.convert_to_TOUGH2(warn=False)\nafter = {'block': d.history_block, 'connection': d.history_connection, 'generator': d.history_generator}\n"
+                "ok = all(list(after[k]) == list(items[k] if k in %r else before[k]) for k in before)\ndetail = str(dict((k, len(v)) for k, v in after.items()))\n") % (tuple(which), tuple(which))
     if result['program'] == 'p_rocks_json':
         atm, coords = result['arg']
         m = model or {}
